@@ -71,6 +71,18 @@ def run(env):
     for ctx, S, t in plans:
         P_, q_, g_ = pq(ctx)
         coeffs = [str(r.randrange(q_)) for _ in range(t)]
+        # dealer polynomials with vanishing / extreme coefficients (zero secret, zero interior or leading term, q-1, 1):
+        # every fourth plan gets one of these patterns instead of random coefficients
+        nplan = len(st1)
+        pat = (nplan // 2) % 8
+        if pat in (1, 3, 5, 7):
+            cz = [r.randrange(1, q_) for _ in range(t)]
+            if pat == 1: cz[0] = 0
+            if pat == 3 and t >= 3: cz[t // 2] = 0
+            if pat == 3 and t < 3: cz[0] = 0; cz[-1] = q_ - 1
+            if pat == 5: cz[-1] = 0
+            if pat == 7: cz = [0] * t if t > 1 else [0]; cz[-1] = 1 if t > 1 else 0
+            coeffs = [str(c) for c in cz]
         for i in S:
             st1.append({"ctx": ctx, "op": "lagrange", "args": [str(i), [str(x) for x in S]], "tag": "lagrange|S|=%d" % len(S)})
             st1.append({"ctx": ctx, "op": "eval_poly", "args": [str(i), str(t), coeffs], "tag": "eval_poly"})
